@@ -74,6 +74,14 @@ def gen_session(rng):
     """list of form texts, one submission each"""
     forms = []
     kind = rng.random()
+    if rng.random() < 0.05:
+        # a long session: 100-250 submissions with a running counter, and one very long input line
+        forms = ["(define n 0)", "(define (bump!) (set! n (+ n 1)) n)"]
+        for i in range(rng.randint(100, 250)):
+            forms.append(rng.choice(["(bump!)", "n", "(set! n (+ n 2))", "(define k%d n)" % i, "(list n (bump!))", "(car '())", "(undefined-thing)", "(display n)", "(if (> n 50) 'big 'small)"]))
+        forms.insert(rng.randrange(len(forms)), "(apply + (list %s))" % " ".join(str(rng.randint(0, 9)) for _ in range(rng.choice([500, 3000]))))
+        forms.append("(list n (bump!))")
+        return forms
     if kind < 0.45:
         g = gen_core.G(rng, ticks=False, max_depth=4)
         forms = [show(gen_core.render(f, "plain")) for f in g.program()]
